@@ -1,4 +1,5 @@
 import SppModel.Generated.ReaderArith
+import SppModel.Frozen.ReaderArith
 import SppModel.Model.Reduce
 /-!
 # Source tie — `Filterbank.dedisperse` gulp clamp, skipback and output offset (C06, C09)
@@ -7,10 +8,10 @@ import SppModel.Model.Reduce
 translator no longer recognises is listed in its `translationFailures` (the module still elaborates).
 -/
 namespace SppModel.Tie
-open SppModel SppModel.Generated.ReaderArith
+open SppModel SppModel.Frozen.ReaderArith
 
 theorem dedisperse_translated :
-    ∀ f ∈ translationFailures, f.1 ∉ ["base_py", "dedisperse_index", "dedisperse_gulp", "dedisperse_skipback"] := by decide
+    ∀ f ∈ Generated.ReaderArith.translationFailures, f.1 ∉ ["base_py", "dedisperse_index", "dedisperse_gulp", "dedisperse_skipback"] := by decide
 
 theorem dedisperse_index_eq (G ii md : Nat) : dedisperse_index G ii md = ii * (G - md) := rfl
 theorem dedisperse_gulp_eq (g md : Nat) : dedisperse_gulp g md = max (2 * md) g := rfl
